@@ -463,7 +463,8 @@ extern "C" int engineexport_run(int breathe_dt)
 
 extern "C" int engineexport_iterate_n(int n_iterations)
     {
-    bool unfinished = true;
+    // with n_iterations <= 0 no iteration is done : the status is the current one
+    bool unfinished = (global_space_type == 0) ? !global_grid_algo->IsComplete() : !global_graph_algo->IsComplete();
     for(int i=0; i<n_iterations; i++)
         {
         if      (global_space_type == 0) unfinished = global_grid_algo->Iterate();
